@@ -65,3 +65,13 @@ claim("C30", SM,
       "graph edges, successor/predecessor views, pendings, block.bto); random histories over 6 loc_keys validated by TLC.",
       "TLC; well-formed blocks; edge ops between present blocks; non-conflicting merges; while bto is edited directly only rebuild_edges is called",
       "DESIGN.md 5/C30, B.3", "AsmCFG")
+
+claim("C24", SM,
+      "VmMngr.tla: byte map with per-page permissions, byte order, recorded access sets, memory breakpoints, code blocks "
+      "and exception flags; TLC checks NoOverlap / FaultAtomic / BpExact / Recorded and enumerates three operation pools "
+      "(mapping + host access; emulated typed access over every layout of <=2 pages incl. zero-sized and adjacent pages "
+      "with different permissions, both byte orders; memory breakpoints); every edge is replayed on the VmMngr extension "
+      "rebuilt from the working tree (emulated accesses through vm_MEM_LOOKUP_*/vm_MEM_WRITE_* via ctypes); 60-step mixed "
+      "histories over 24 addresses are validated by TLC.",
+      "TLC; gcc; ctypes access to the vm_mngr_t inside the Vm object; no address wrap-around at 2^64",
+      "DESIGN.md 4.4, 5/C24, B.4", "VmMngr")
